@@ -1,7 +1,5 @@
 SPECIFICATION Spec
 INVARIANT KnownEvent
-INVARIANT Step_New
-INVARIANT Step_Conv
 INVARIANT Cl_PathIndependent
 INVARIANT Cl_Invertible
 INVARIANT Cl_Linear
@@ -9,4 +7,6 @@ INVARIANT Cl_NonNegative
 INVARIANT Cl_Identity
 INVARIANT Cl_Raises
 INVARIANT Cl_Factors
+INVARIANT Step_New
+INVARIANT Step_Conv
 CHECK_DEADLOCK FALSE
